@@ -477,7 +477,65 @@ class OpHolder(object):
         self.op = None
 
 
+def build_derived_operation(ctx, op, prm=None):
+    """An operation class that INHERITS from another class of the service (op["base"] = {"name": .., "prm": parameters
+    registered for the base class or None, "inherits_op": is the decorated operation defined in the base class and merely
+    inherited?, "abstract": the base is never run itself}).  The class that runs is the derived one: its name is op["cls"],
+    its own parameters (prm) are registered for it when given - exactly as build_operation does for a flat class."""
+    rec = ctx.rec
+    cache = rec.__dict__.setdefault("_verif_ops", {})
+    has_ex = op["extractor"]["kind"] != "none"
+    base = op["base"]
+    key = (op["cls"], op["classlevel"], has_ex, repr(sorted(prm.items())) if prm else None,
+           json.dumps(base, sort_keys=True))
+    if key not in cache:
+        holder = OpHolder()
+        audit = rec.static_intercept_output("audit")(lambda *a, **k: None)
+
+        def extractor(*a, **k):
+            ex = holder.op["extractor"]
+            if ex["kind"] == "calls_out":
+                for i in range(ex.get("n", 1)):
+                    audit("extracted", i)
+                return {kk: to_py(v) for kk, v in ex["d"]}
+            if ex["kind"] == "dict":
+                return {kk: to_py(v) for kk, v in ex["d"]}
+            if ex["kind"] == "raises":
+                raise pv.HandlerError("extractor")
+            return 7 if ex.get("junk") == "int" else [('k', 1), 7]
+
+        def run_body(*_a):
+            return interp(holder.ctx, holder.op["body"], [])
+        ext = extractor if has_ex else None
+        if op["classlevel"]:
+            members = {"execute": classmethod(rec.class_operation(metadata_extractor=ext)(lambda c: run_body()))}
+        else:
+            members = {"execute": rec.operation(metadata_extractor=ext)(lambda self: run_body())}
+        if base.get("inherits_op"):
+            base_cls = type(str(base["name"]), (object,), members)
+            cls = type(str(op["cls"]), (base_cls,), {})
+        else:
+            base_cls = type(str(base["name"]), (object,), {})
+            cls = type(str(op["cls"]), (base_cls,), members)
+        call = cls.execute if op["classlevel"] else (lambda: cls().execute())
+        cache[key] = (holder, cls, call)
+        bp = base.get("prm")
+        if bp is not None:
+            rec.recording_params(RecordingParameters(
+                sampling_rate=float(Fraction(*bp["rate"])), ignore_enforced_sampling=bp["ignore"],
+                skipped=bp["skipped"], copy_data_on_intercepion=bp["copy"]))(base_cls)
+        if prm is not None:
+            rec.recording_params(RecordingParameters(
+                sampling_rate=float(Fraction(*prm["rate"])), ignore_enforced_sampling=prm["ignore"],
+                skipped=prm["skipped"], copy_data_on_intercepion=prm["copy"]))(cls)
+    holder, cls, call = cache[key]
+    holder.ctx, holder.op = ctx, op
+    return call
+
+
 def build_operation(ctx, op, prm=None):
+    if op.get("base"):
+        return build_derived_operation(ctx, op, prm)
     rec = ctx.rec
     cache = rec.__dict__.setdefault("_verif_ops", {})
     has_ex = op["extractor"]["kind"] != "none"
@@ -523,9 +581,17 @@ def build_operation(ctx, op, prm=None):
     return call
 
 
+def force_flag_of(rec):
+    """The forced-sampling state of the recorder, read defensively: the private field where it exists (wherever a version
+    of the code keeps it, the property's observable is the public is_recording_sample_forced), else the public property."""
+    if "_force_sample" in rec.__dict__:
+        return bool(rec.__dict__["_force_sample"])
+    return bool(rec.is_recording_sample_forced)
+
+
 def state_of(rec):
     return {"active": rec._active_recording is not None, "enabled": bool(rec.recording_enabled),
-            "force": bool(rec._force_sample),
+            "force": force_flag_of(rec),
             "counter": sorted([k, v] for k, v in rec._invoke_counter.items() if v),
             "icpt": bool(rec._currently_in_interception),
             "public": [bool(rec.in_recording_mode), bool(rec.in_playback_mode), rec.current_recording_id is None,
@@ -558,7 +624,47 @@ def strip(c):
             strip(v)
 
 
+def do_import_run(rec, spy, rng, run):
+    """A recording that reaches the cassette WITHOUT going through the recorder (imported from elsewhere, written by a tool
+    or an older writer through the cassette API): a copy of the data of the recording with creation ordinal run["src"] (an
+    empty recording if that one was not kept) under a new id, with run["meta"] = "none" (no metadata at all) / "no_clock"
+    (the source's metadata without duration and timestamp) / "user" (only the user's keys) / "full".  It gets the next
+    creation ordinal, so that replays can target it."""
+    spy.log = []
+    src = None
+    t = run.get("src")
+    if t is not None and 0 <= t < len(spy.ids):
+        try:
+            src = spy.inner.get_recording(spy.ids[t])
+        except NoSuchRecording:
+            src = None
+    cat = spy.inner.extract_recording_category(spy.ids[t]) if src is not None else run.get("cat", "Imported")
+    new = spy.inner.create_new_recording(cat)
+    spy.ords[new.id] = len(spy.ids)
+    spy.ids.append(new.id)
+    if src is not None:
+        for k in list(src.get_all_keys()):
+            new.set_data(k, src.get_data(k))
+        meta = dict(src.get_metadata())
+        how = run.get("meta", "none")
+        if how == "no_clock":
+            for k in CLOCK_KEYS:
+                meta.pop(k, None)
+        elif how == "user":
+            meta = {k: v for k, v in meta.items() if not k.startswith("_tape_recorder_")}
+        elif how == "none":
+            meta = {}
+        if meta:
+            new.add_metadata(meta)
+    spy.inner.save_recording(new)
+    return {"outcome": {"o": "val", "v": {"t": "none"}}, "pbouts": [], "recouts": [], "trace": [], "cass": [],
+            "state": state_of(rec), "identity_violations": 0, "journal": [{"j": "import", "copied": src is not None}],
+            "draws_used": 0}
+
+
 def do_one_run(rec, spy, rng, run):
+    if run["kind"] == "import":
+        return do_import_run(rec, spy, rng, run)
     ctx = Ctx(rec)
     spy.log = []
     draws_before = rng.pos
@@ -649,9 +755,93 @@ def run_history(case):
             res["lookup"] = {c: sorted(spy.ords.get(i, -1) for i in find_matching_recording_ids(
                 rec, c, RecordingLookupProperties(start_date=None))) for c in cats}
             rec.tape_cassette = spy
+        if case.get("lookup_variants"):
+            res["lookup_variants"] = lookup_variants(rec, spy, inner, runs)
     finally:
         cleanup()
     return res
+
+
+def lookup_variants(rec, spy, inner, runs):
+    """C18: find_matching_recording_ids per category (creation ordinals) with lookup-properties objects that reached their
+    state in other ways than through the constructor alone: attributes assigned after construction, one object reused for
+    every category and looked up twice.  What counts is the object's state at lookup time."""
+    from playback.studio.recordings_lookup import find_matching_recording_ids, RecordingLookupProperties
+    cats = sorted(set(r["op"]["cls"] for r in runs if r["kind"] == "record"))
+    K_EXC = TapeRecorder.EXCEPTION_IN_OPERATION
+
+    def late_on():
+        p = RecordingLookupProperties(start_date=None, skip_incomplete=False)
+        p.skip_incomplete = True
+        return p
+
+    def late_off():
+        p = RecordingLookupProperties(start_date=None)
+        p.skip_incomplete = False
+        return p
+
+    def meta_none():
+        p = RecordingLookupProperties(start_date=None, metadata={})
+        p.metadata = None
+        return p
+
+    def meta_empty():
+        p = RecordingLookupProperties(start_date=None)
+        p.metadata = {}
+        return p
+
+    def meta_filter():
+        p = RecordingLookupProperties(start_date=None)
+        p.metadata = {K_EXC: False}          # re-targeted after construction: complete runs that returned
+        return p
+
+    def ctor_filter():
+        return RecordingLookupProperties(start_date=None, metadata={K_EXC: False})
+
+    def ctor_off():
+        return RecordingLookupProperties(start_date=None, skip_incomplete=False)
+
+    out = {}
+    rec.tape_cassette = inner      # lookups do not go through the spy's journal
+    try:
+        for name, mk in (("late_on", late_on), ("late_off", late_off), ("meta_none", meta_none), ("meta_empty", meta_empty),
+                         ("meta_filter", meta_filter), ("ctor_filter", ctor_filter), ("ctor_off", ctor_off)):
+            try:
+                per = {c: sorted(spy.ords.get(i, -1) for i in find_matching_recording_ids(rec, c, mk())) for c in cats}
+                shared = mk()          # ONE object for every category (as the studio does), each category looked up twice
+                again = {}
+                for c in cats + cats:
+                    again[c] = sorted(spy.ords.get(i, -1) for i in find_matching_recording_ids(rec, c, shared))
+                out[name] = {"fresh": per, "shared": again}
+            except Exception as ex:
+                out[name] = {"error": type(ex).__name__ + ": " + str(ex)[:200]}
+        try:
+            # one object whose skip_incomplete is switched off and on again between lookups
+            p = RecordingLookupProperties(start_date=None)
+            look = lambda: {c: sorted(spy.ords.get(i, -1) for i in find_matching_recording_ids(rec, c, p)) for c in cats}  # noqa: E731
+            tog = {"on1": look()}
+            p.skip_incomplete = False
+            tog["off"] = look()
+            p.skip_incomplete = True
+            tog["on2"] = look()
+            out["toggle"] = tog
+        except Exception as ex:
+            out["toggle"] = {"error": type(ex).__name__ + ": " + str(ex)[:200]}
+    finally:
+        rec.tape_cassette = spy
+    return out
+
+
+def seed_of(case):
+    """the seed value a C17 'seeded' case stands for (JSON cannot carry bytes)"""
+    sd = case["seed"]
+    if case.get("seed_type") == "bytes":
+        return sd.encode("latin-1")
+    if case.get("seed_type") == "float":
+        return float(sd)
+    if case.get("seed_type") == "bool":
+        return bool(sd)
+    return sd
 
 
 def run_c17(case):
@@ -683,7 +873,7 @@ def run_c17(case):
     def decisions(runs, threaded=False):
         import threading
         spy = Spy(InMemoryTapeCassette())
-        rec = TapeRecorder(spy, random_seed=case["seed"])
+        rec = TapeRecorder(spy, random_seed=seed_of(case))
         out = []
         for run in runs:
             spy.log = []
